@@ -40,9 +40,14 @@ def gen_cases(tier, seed):
                 cases.append({"kind": "zoo", "cfg": cfg, "policy": pol, "seed": env.subseed(seed, fam, ci, pol),
                               "world": "f64", "batch": 5 if tier == "quick" else 8,
                               "cost": 6 if "umnn" in fam else (3 if len(cfg.get("shape", [1])) == 3 else 1)})
+                base_case = cases[-1]
                 if cfg.get("cache") and pol != "zero":
                     # cache on: the forward log-det must not depend on which direction filled the cache first
-                    cases.append(dict(cases[-1], pre="inverse_first"))
+                    cases.append(dict(base_case, pre="inverse_first"))
+                if pol == "randn1" and (ci < 2 or tier == "thorough") and "umnn" not in fam:
+                    # the same OBJECT evaluated after its values were replaced (it was built and called with other values, then
+                    # received these through load_state_dict): "for every parameter value" includes values that arrive later
+                    cases.append(dict(base_case, pre="revalued"))
     # finding probe (known open finding): UMNN coupling with an unconditional transform
     for i, shape in enumerate(([2], [3])):
         cfg = {"fam": "coupling_umnn", "ctx": 0, "net": "resnet", "hidden": 8, "blocks": 1, "shape": shape,
@@ -66,6 +71,18 @@ def gen_cases(tier, seed):
     return cases
 
 
+def _reseed(cfg):
+    """the same configuration with other constructor-given VALUES (scales / shifts, permutations) where those live in buffers"""
+    if isinstance(cfg, dict):
+        out = {k: _reseed(v) for k, v in cfg.items()}
+        if cfg.get("fam") in ("pointwise_affine", "permutation") and "pseed" in cfg and cfg.get("kind") != "reverse":
+            out["pseed"] = cfg["pseed"] + 1
+        return out
+    if isinstance(cfg, list):
+        return [_reseed(v) for v in cfg]
+    return cfg
+
+
 def _cell(r, cfg, me, pol, special):
     r.cell(cfg["fam"], pol, "img" if len(me["shape"]) == 3 else "2d", "ctx" if me["ctx_shape"] else "noctx",
            "sp" if special else "int", cfg.get("tails", "-"), "uncond" if cfg.get("uncond") else "-",
@@ -86,6 +103,25 @@ def run_case(case):
         r.viol("construct", "%s constructor raises" % fam, exc=repr(e)[:300], cfg=cfg)
         return r.done()
     B = case["batch"]
+    if case.get("pre") == "revalued":
+        try:
+            other = zoo.make(_reseed(cfg), "randn0.3", case["seed"] + 5)
+            xo = zoo.sample_inputs(me, B, case["seed"] + 7, structured="one")
+            co = zoo.sample_context(me, B, case["seed"] + 8)
+            with torch.no_grad():
+                yo = other(xo, co)[0]
+                if me.get("invertible", True):
+                    try:
+                        other.inverse(yo, co)
+                    except Exception:
+                        pass
+            other.load_state_dict(model.state_dict())
+            other.train(model.training)
+            model = other
+            r.count("revalued_objects")
+        except Exception as e:
+            r.inconc("revalued pre-history: harness failure %r" % (e,))
+            return r.done()
     x = zoo.sample_inputs(me, B, case["seed"] + 1, structured="one")
     ctx = zoo.sample_context(me, B, case["seed"] + 2)
     sp = set(me["special"])
